@@ -2,10 +2,10 @@
 # Overlay venv: /venv's interpreter and site-packages (torch, numpy, pywt, dtcwt) + solver wheels.
 set -e
 V=/verif/.venv
-if [ -x "$V/bin/python" ] && "$V/bin/python" -c "import z3, crosshair, torch, pywt" 2>/dev/null; then exit 0; fi
+if [ -x "$V/bin/python" ] && [ -f "$V/.ok" ]; then exit 0; fi
 rm -rf "$V"
 /venv/bin/python -m venv "$V"
 SP=$("$V/bin/python" -c "import sysconfig;print(sysconfig.get_paths()['purelib'])")
 printf "import site; site.addsitedir('/venv/lib/python3.12/site-packages')\n" > "$SP/_verif_overlay.pth"
 PIP_NO_INDEX=1 "$V/bin/python" -m pip install -q --no-index --find-links /opt/veriftools/wheels z3-solver crosshair-tool cvc5 >/dev/null
-"$V/bin/python" -c "import z3, crosshair, torch, pywt; print('overlay venv ok: z3', z3.get_version_string())"
+"$V/bin/python" -c "import z3, crosshair, torch, pywt; print('overlay venv ok: z3', z3.get_version_string())" && touch "$V/.ok"
